@@ -200,6 +200,30 @@ def main():
                 ad, sd = digest(a), digest(s)
                 quantize_activation(a, Q.qint8, s)
                 r["library_inputs_changed"] = not (wd == digest(w) and ad == digest(a) and sd == digest(s))
+                # special scales: exactly one (the value every activation scale holds before calibration), a power of two
+                for sv in (1.0, 0.5, 2.0):
+                    for qt_ in (Q.qint8, Q.qfloat8):
+                        a2 = torch.randn(4, 8) * 3
+                        s2 = torch.tensor(sv)
+                        d2 = digest(a2)
+                        quantize_activation(a2, qt_, s2)
+                        if digest(a2) != d2 or float(s2) != sv:
+                            r["library_inputs_changed"] = True
+                # an uncalibrated module (scales still one) and an input of another float dtype: neither the input nor the model may change
+                m_unc = torch.nn.Sequential(torch.nn.Linear(16, 8))
+                quantize(m_unc, weights=wq, activations=aq)
+                for dt_ in (torch.float32, torch.float16):
+                    xi_ = (torch.randn(3, 16) * 2).to(dt_)
+                    di_, s_unc = digest(xi_), snap_model(m_unc)
+                    try:
+                        with torch.no_grad():
+                            m_unc(xi_)
+                    except Exception:  # noqa: BLE001
+                        pass
+                    if digest(xi_) != di_:
+                        r["input_changed"] = True
+                    if snap_model(m_unc) != s_unc:
+                        r["forward_changes_state"] = True
                 # freeze() leaves biases, scales and qtypes untouched
                 if not case.get("frozen"):
                     sa = snap_model(model)
